@@ -636,7 +636,10 @@ class World:
                 pdt = np.dtype("int64" if op.get("bad_pixels") else (self.cfg.get("pix_dtype") or "int64"))
                 pixels = tuple(np.asarray(a, dtype=pdt) for a in op["pixels"])
             # (an id the label dtype cannot hold stays a Python int: numpy scalars wrap silently)
-            node = op["node"] if op.get("bad_pixels") == "label_beyond_dtype" else rep(op["node"])
+            node = rep(op["node"])
+            if tr.segmentation is not None and isinstance(op["node"], int) and \
+                    op["node"] > int(np.iinfo(tr.segmentation.dtype).max):
+                node = op["node"]  # numpy scalars would wrap silently; a Python int is refused
             if op.get("reuse_attrs") and getattr(self, "_last_add_attrs", None) is not None:
                 # the caller keeps one attribute dict and re-uses it for the next node: it sets the
                 # keys it knows about (the ones it passed before) and hands the same object over
